@@ -78,7 +78,8 @@ Theorem C17_constructors_establish_inv :
   (forall n rows cin cout size w, 0 <= n -> 0 <= rows -> 0 <= cin -> 0 <= cout -> 0 <= size -> 0 < w ->
       wf_m (m_alloc n rows cin cout size w) /\ InvM (m_alloc n rows cin cout size w)) /\
   (forall n rows cin cout size w len m, m_from_bytes n rows cin cout size w len = Some m -> InvM m) /\
-  (* from_data: exactly when the caller's buffer is large enough - nothing checks it *)
+  (* the UNCHECKED from_data (VecZnxBig, VecZnxDft, SvpPPol, MatZnx, VmpPMat, CnvPVec): exactly when the caller's buffer is
+     large enough - nothing checks it *)
   (forall len n cols size w, Inv (v_from_data len n cols size w) <-> n * cols * size * w <= len).
 Proof. exact constructors_establish_inv. Qed.
 Print Assumptions C17_constructors_establish_inv.
@@ -87,33 +88,27 @@ Theorem C17_from_data_refuted : exists len n cols size w, 0 <= len /\ 0 < w /\ ~
 Proof. exact from_data_refuted. Qed.
 Print Assumptions C17_from_data_refuted.
 
-(* ---- deserialisation ---- *)
-Definition C17_read_from_establishes_inv_full : Prop :=
-  forall v v' h avail, wf_v v -> Inv v -> v_w v = 8 -> v_read_from v h avail = ROk v' -> Inv v'.
+(* ---- deserialisation (after repairs 206cd69 / 0b16af7) ---- *)
+(* whatever the stream header says, an accepted read leaves a well-formed receiver: checked products, max_size < size
+   rejected, max_size clamped to what the receiver's buffer holds *)
+Theorem C17_read_from_establishes_inv : forall v v' h avail,
+  wf_v v -> v_w v = 8 -> 0 <= sh_n h /\ 0 <= sh_cols h /\ 0 <= sh_size h /\ 0 <= sh_max h ->
+  v_read_from v h avail = ROk v' ->
+  wf_v v' /\ Inv v' /\ v_len v' = v_len v /\ v_size v' = sh_size h /\ v_max v' <= sh_max h.
+Proof. exact read_from_establishes_inv. Qed.
+Print Assumptions C17_read_from_establishes_inv.
 
-Theorem C17_read_from_inv_partial : forall v v' h avail,
-  0 <= sh_n h * sh_cols h * sh_size h * 8 < U64 -> v_w v = 8 ->
-  sh_size h <= sh_max h -> sh_n h * sh_cols h * sh_max h * 8 <= v_len v ->
-  v_read_from v h avail = ROk v' -> Inv v'.
-Proof. exact read_from_inv_partial. Qed.
-Print Assumptions C17_read_from_inv_partial.
+Theorem C17_mat_read_from_establishes_inv : forall m m' n size rows cin cout len avail,
+  m_w m = 8 -> m_read_from m n size rows cin cout len avail = Some m' -> InvM m' /\ m_len m' = m_len m.
+Proof. exact mat_read_from_inv. Qed.
+Print Assumptions C17_mat_read_from_establishes_inv.
 
-(* a well-formed writer with spare capacity + a well-formed receiver large enough for the active limbs: the receiver
-   becomes ill-formed, set_size(max_size) passes its assert, and the last limb lies outside the buffer *)
-Theorem C17_read_from_max_size_refuted :
-  exists writer receiver v' grown,
-    wf_v writer /\ Inv writer /\ wf_v receiver /\ Inv receiver /\
-    v_read_from receiver (v_write_hdr writer) (sh_len (v_write_hdr writer)) = ROk v' /\ ~ Inv v' /\
-    v_set_size v' (v_max v') = Some grown /\
-    ~ (at_end grown 0 (v_size grown - 1) <= cap_words grown).
-Proof. exact read_from_max_size_refuted. Qed.
-Print Assumptions C17_read_from_max_size_refuted.
-
-Theorem C17_read_from_wrap_refuted :
-  exists receiver h v', wf_v receiver /\ Inv receiver /\ v_read_from receiver h 0 = ROk v' /\
-    ~ (v_n v' * v_cols v' * v_size v' * v_w v' <= v_len v').
-Proof. exact read_from_wrap_refuted. Qed.
-Print Assumptions C17_read_from_wrap_refuted.
+(* VecZnx / ScalarZnx::from_data after repair 2067fe8 *)
+Theorem C17_from_data_checked_establishes_inv : forall len n cols size w v,
+  0 <= n -> 0 <= cols -> 0 <= size -> 0 < w -> 0 <= len ->
+  v_from_data_checked len n cols size w = Some v -> wf_v v /\ Inv v.
+Proof. exact from_data_checked_inv. Qed.
+Print Assumptions C17_from_data_checked_establishes_inv.
 
 (* ---- scratch ---- *)
 Theorem C17_take_in_window : forall k off len win rest,
@@ -144,13 +139,18 @@ Theorem C17_take_zero_outside_refuted :
 Proof. exact take_zero_outside_refuted. Qed.
 Print Assumptions C17_take_zero_outside_refuted.
 
-(* ---- histories of the harness: the safe histories establish Inv ---- *)
-Theorem C17_safe_histories_establish_inv : forall vec n cols size w hist hp1 hp2 v,
+(* ---- histories of the harness: every history establishes Inv, except from_data of a layout that does not validate ---- *)
+Theorem C17_histories_establish_inv : forall vec chk n cols size w hist hp1 hp2 v,
   0 <= n -> 0 <= cols -> 0 <= size -> 0 < w -> 0 <= hp1 -> 0 <= hp2 ->
-  hist = 0 \/ hist = 1 \/ hist = 2 \/ hist = 7 \/ hist = 8 ->
-  hist_hdr vec n cols size w (cols * size) hist hp1 hp2 = HOk v -> wf_v v /\ Inv v.
-Proof. exact safe_histories_inv. Qed.
-Print Assumptions C17_safe_histories_establish_inv.
+  (hist = 9 -> chk = true) ->
+  hist_hdr vec chk n cols size w (cols * size) hist hp1 hp2 = HOk v -> wf_v v /\ Inv v.
+Proof. exact histories_inv. Qed.
+Print Assumptions C17_histories_establish_inv.
+
+Theorem C17_history_from_data_unchecked_refuted :
+  exists n cols size w hp1 v, 0 < w /\ hist_hdr false false n cols size w (cols * size) 9 hp1 0 = HOk v /\ ~ Inv v.
+Proof. exact history_from_data_unchecked_refuted. Qed.
+Print Assumptions C17_history_from_data_unchecked_refuted.
 
 (* ---- op_total: no loop of the modelled reference operations indexes outside its operands ---- *)
 Theorem C17_op_total_limbs : forall w b off k a r0 ov,
@@ -244,13 +244,16 @@ Example C17_take_example :
 Proof. split; vm_compute; reflexivity. Qed.
 
 Example C17_history_example :
-  (* writer with 2 spare limbs, receiver without: read_from accepts, the receiver's capacity clause fails *)
+  (* writer with 2 spare limbs, receiver without: read_from accepts and clamps max_size to the receiver's 2 limbs *)
   run_c17 17000 [1; 8; 4; 3; 1; 2; 0;  1; 2; 0;  1; 1; 0;  0; 0; 0;  0; 0; 0; 0; 7] [] =
-    Some [[3; 1; 0; 1]; [4; 1; 1; 3; 64; 8]] /\
-  (* the same with a receiver of equal capacity is fine *)
+    Some [[0; 1; 0; 1]; [4; 1; 1; 2; 64; 8]] /\
+  (* a receiver of equal capacity keeps the writer's max_size *)
   run_c17 17000 [1; 8; 4; 3; 1; 2; 2;  1; 2; 0;  1; 1; 0;  0; 0; 0;  0; 0; 0; 0; 7] [] =
-    Some [[0; 1; 0; 1]; [4; 1; 1; 3; 128; 8]].
-Proof. split; vm_compute; reflexivity. Qed.
+    Some [[0; 1; 0; 1]; [4; 1; 1; 3; 128; 8]] /\
+  (* VecZnxBig::from_data (NTT120: 16-byte words) on a buffer one word short: ill-formed, nothing is run *)
+  run_c17 17000 [3; 42; 4; 9; 1; 2; 0;  1; 2; 0;  1; 2; 0;  0; 0; 0;  0; 0; 0; 0; 7] [] =
+    Some [[3; 1; 0; 1]; [4; 1; 2; 2; 112; 16]].
+Proof. repeat split; vm_compute; reflexivity. Qed.
 
 Example C17_normalize_indices_example :
   normalize_inter_c 64 4 (-9) [1; 2; 3] [0; 0; 0; 0; 0] = Some (normalize_inter 64 4 (-9) [1; 2; 3] [0; 0; 0; 0; 0]).
